@@ -35,6 +35,24 @@ func runC07(r *Runner, g *Gen, tier string) string {
 			}
 		}
 	}
+	// trace correspondence: the recorded accesses of the shared registry replayed on the Lean protocol model
+	for _, f := range regFamilies {
+		r.Do(makeRegTraceOp(f.name, 2, nil), true, "regtrace.serial")
+		r.Do(makeRegTraceOp(f.name, 2, repeat(1, 400)), true, "regtrace.serial")
+		for i := 1; i < maxSteps; i += 2 {
+			r.Do(makeRegTraceOp(f.name, 2, append(repeat(0, i), repeat(1, 400)...)), true, "regtrace.pre1")
+		}
+	}
+	nt := scale(tier, 300, 20000)
+	for i := 0; i < nt; i++ {
+		f := regFamilies[g.r.Intn(len(regFamilies))]
+		k := 2 + g.r.Intn(2)
+		var s []int
+		for j := 0; j < 150; j++ {
+			s = append(s, g.r.Intn(k))
+		}
+		r.Do(makeRegTraceOp(f.name, k, s), true, "regtrace.random")
+	}
 	n := scale(tier, 300, 20000)
 	for i := 0; i < n; i++ {
 		f := schedFamilies[g.r.Intn(len(schedFamilies))]
